@@ -14,6 +14,14 @@
 //    octets long. Partial Body Lengths MUST NOT be used for any other packet types [than data
 //    packets: literal, compressed, encrypted]."
 //
+// Contents:
+//   Chunk, chunk_of, deframe_c / deframe (reading side, Option), avail_c (total: body octets before the first
+//   framing fault), deframe_stream / avail_stream (stream that starts with a length header),
+//   lemma_deframe_avail, lemma_chunk_advance (reading m octets of the current chunk is invisible),
+//   lemma_partial_step / lemma_partial_done, first_len_legal (512 / data-packet rules),
+//   frame_from / frame (writing side), L1 = lemma_deframe_frame: deframe_stream(frame(body) ++ tail) == Some(body, |frame|),
+//   packet_stream, chunk_len, lemma_gen_step (one step of a streaming emitter).
+//
 // A *chunk descriptor* says how the octets at the head of the stream are to be read:
 //   Fixed(n)       n body octets, then the packet is over
 //   Indeterminate  (legacy format) everything up to the end of the stream is body
